@@ -1,49 +1,420 @@
+// Command worker executes simulated cases of one property. It is built from the instrumented
+// scratch copy of /repo by `kapsim`; one OS process runs one world at a time (GOMAXPROCS=1).
 package main
 
 import (
+	"encoding/json"
+	"flag"
 	"fmt"
-	"sync"
+	"os"
+	"runtime"
+	"runtime/debug"
+	"strconv"
+	"strings"
 	"time"
 
-	_ "github.com/influxdata/kapacitor"
-	_ "github.com/influxdata/kapacitor/services/alert"
-	_ "github.com/influxdata/kapacitor/services/httpd"
-	_ "github.com/influxdata/kapacitor/services/storage"
-	_ "github.com/influxdata/kapacitor/services/task_store"
-	_ "github.com/influxdata/kapacitor/task/backend/scheduler"
-	_ "github.com/influxdata/kapacitor/udf"
-	_ "github.com/influxdata/kapacitor/udf/agent"
-	"github.com/influxdata/kapacitor/zz_sim/simrt"
+	"github.com/influxdata/kapacitor/zz_sim/gen"
+	"github.com/influxdata/kapacitor/zz_sim/harness"
+	"github.com/influxdata/kapacitor/zz_sim/props"
 )
 
+// ReplayFile is the on-disk form of one case: everything needed to re-execute it exactly.
+type ReplayFile struct {
+	Property   string      `json:"property"`
+	Tier       string      `json:"tier"`
+	FaultFree  bool        `json:"fault_free"`
+	BaseSeed   uint64      `json:"base_seed"`
+	RunIndex   int64       `json:"run_index"`
+	RunSeed    uint64      `json:"run_seed"`
+	GenTape    []uint32    `json:"gen_tape"`
+	WorldTapes [][]uint32  `json:"world_tapes"`
+	Class      string      `json:"class"`
+	Detail     string      `json:"detail"`
+	Shape      interface{} `json:"shape,omitempty"`
+	Trace      uint64      `json:"trace_hash"`
+	Scenario   interface{} `json:"scenario,omitempty"`
+	Minimised  bool        `json:"minimised"`
+	Note       string      `json:"note,omitempty"`
+}
+
+// Line is one result line on stdout.
+type Line struct {
+	I            int64            `json:"i"`
+	Seed         uint64           `json:"seed"`
+	OK           bool             `json:"ok"`
+	Class        string           `json:"class,omitempty"`
+	Detail       string           `json:"detail,omitempty"`
+	Shape        interface{}      `json:"shape,omitempty"`
+	Inconclusive bool             `json:"inconclusive,omitempty"`
+	Trivial      bool             `json:"trivial,omitempty"`
+	FaultFree    bool             `json:"ff,omitempty"`
+	Worlds       int              `json:"worlds"`
+	Steps        int64            `json:"steps"`
+	Switches     int64            `json:"switches"`
+	VirtNs       int64            `json:"virt_ns"`
+	Trace        uint64           `json:"trace"`
+	Sig          uint64           `json:"sig"`
+	ScenHash     uint64           `json:"scen"`
+	MaxG         int              `json:"maxg"`
+	Counters     map[string]int64 `json:"counters,omitempty"`
+	Scenario     interface{}      `json:"scenario,omitempty"`
+	Replay       string           `json:"replay,omitempty"`
+	WallMs       int64            `json:"wall_ms"`
+	Overrun      bool             `json:"overrun,omitempty"`
+}
+
+func splitmix(x uint64) uint64 {
+	x += 0x9E3779B97F4A7C15
+	z := x
+	z = (z ^ (z >> 30)) * 0xBF58476D1CE4E5B9
+	z = (z ^ (z >> 27)) * 0x94D049BB133111EB
+	return z ^ (z >> 31)
+}
+
+func hashTape(t []uint32) uint64 {
+	h := uint64(1469598103934665603)
+	for _, v := range t {
+		h ^= uint64(v)
+		h *= 1099511628211
+	}
+	return h
+}
+
+func execute(p *props.Prop, tier string, ff bool, g *gen.G, tapes [][]uint32) (*props.Ctx, props.Verdict) {
+	c := props.NewCtx(tier, ff, g, tapes)
+	v := p.Run(c)
+	if v.Class == "" && !v.OK {
+		v.OK = true
+	}
+	return c, v
+}
+
+func lineOf(i int64, seed uint64, ff bool, c *props.Ctx, v props.Verdict, wall time.Duration) Line {
+	var sig uint64 = 1469598103934665603
+	for _, s := range c.Sigs {
+		sig = (sig ^ s) * 1099511628211
+	}
+	return Line{I: i, Seed: seed, OK: v.OK, Class: v.Class, Detail: v.Detail, Shape: v.Shape, Inconclusive: v.Inconclusive, Trivial: c.Trivial,
+		FaultFree: ff, Worlds: c.Worlds, Steps: c.Steps, Switches: c.Switches, VirtNs: c.VirtualNs, Trace: c.Trace, Sig: sig,
+		ScenHash: hashTape(c.G.Tape()), MaxG: c.MaxG, Counters: c.Counters, WallMs: wall.Milliseconds(), Overrun: c.Overrun || c.G.Overrun}
+}
+
+func emit(l Line) {
+	b, err := json.Marshal(l)
+	if err != nil {
+		fmt.Fprintln(os.Stderr, "worker: marshal:", err)
+		os.Exit(2)
+	}
+	os.Stdout.Write(append(b, '\n'))
+}
+
 func main() {
-	res := simrt.Run(simrt.Config{Seed: 1, SwitchProb: 0.5}, func() {
-		ch := make(chan int)
-		var wg sync.WaitGroup
-		var mu sync.Mutex
-		total := 0
-		for i := 0; i < 3; i++ {
-			wg.Add(1)
-			go func(i int) {
-				defer wg.Done()
-				for j := 0; j < 5; j++ {
-					ch <- i*10 + j
-					time.Sleep(time.Millisecond)
+	runtime.GOMAXPROCS(1)
+	if p := os.Getenv("KAPSIM_PROCS"); p != "" { // determinism self-test only
+		if n, err := strconv.Atoi(p); err == nil && n > 0 {
+			runtime.GOMAXPROCS(n)
+		}
+	}
+	debug.SetGCPercent(200)
+	if len(os.Args) < 2 {
+		fmt.Fprintln(os.Stderr, "usage: worker run|replay|minimise|list")
+		os.Exit(2)
+	}
+	defer os.RemoveAll(harness.ScratchRoot())
+	switch os.Args[1] {
+	case "run":
+		cmdRun(os.Args[2:])
+	case "replay":
+		cmdReplay(os.Args[2:])
+	case "minimise":
+		cmdMinimise(os.Args[2:])
+	case "list":
+		for id, p := range props.Registry {
+			b, _ := json.Marshal(map[string]interface{}{"id": id, "rule": p.Rule, "real": p.Real, "stub": p.Stub, "assumptions": p.Assumptions})
+			fmt.Println(string(b))
+		}
+	default:
+		fmt.Fprintln(os.Stderr, "unknown command")
+		os.Exit(2)
+	}
+	os.RemoveAll(harness.ScratchRoot())
+}
+
+func getProp(id string) *props.Prop {
+	p := props.Registry[id]
+	if p == nil {
+		fmt.Fprintf(os.Stderr, "worker: unknown property %q\n", id)
+		os.Exit(2)
+	}
+	return p
+}
+
+func cmdRun(args []string) {
+	fs := flag.NewFlagSet("run", flag.ExitOnError)
+	prop := fs.String("prop", "", "")
+	tier := fs.String("tier", "quick", "")
+	seed := fs.Uint64("seed", 1, "base seed")
+	from := fs.Int64("from", 0, "")
+	n := fs.Int64("n", 1, "")
+	ff := fs.Bool("faultfree", false, "")
+	outdir := fs.String("outdir", ".", "")
+	samples := fs.Int("samples", 0, "emit the scenario of the first k runs")
+	maxFail := fs.Int("maxfail", 2, "")
+	memMB := fs.Uint64("mem", 3000, "stop early when the process holds more than this many MB")
+	deadline := fs.Int64("deadline", 0, "unix seconds after which no new run starts")
+	fs.Parse(args)
+	p := getProp(*prop)
+	fails := 0
+	for i := *from; i < *from+*n; i++ {
+		if *deadline > 0 && time.Now().Unix() >= *deadline {
+			fmt.Printf("{\"stopped_at\":%d,\"why\":\"deadline\"}\n", i)
+			return
+		}
+		runSeed := splitmix(*seed ^ splitmix(uint64(i)+0x51ED))
+		if *ff {
+			runSeed = splitmix(runSeed ^ 0xFF)
+		}
+		t0 := time.Now()
+		g := gen.New(runSeed)
+		c, v := execute(p, *tier, *ff, g, nil)
+		l := lineOf(i, runSeed, *ff, c, v, time.Since(t0))
+		if int(i-*from) < *samples {
+			l.Scenario = c.Scenario
+		}
+		if !v.OK {
+			rf := ReplayFile{Property: p.ID, Tier: *tier, FaultFree: *ff, BaseSeed: *seed, RunIndex: i, RunSeed: runSeed,
+				GenTape: g.Tape(), WorldTapes: c.OutTapes, Class: v.Class, Detail: v.Detail, Shape: v.Shape, Trace: c.Trace, Scenario: c.Scenario}
+			path := fmt.Sprintf("%s/%s-%d.json", *outdir, p.ID, runSeed)
+			if err := writeReplay(path, &rf); err != nil {
+				fmt.Fprintln(os.Stderr, "worker:", err)
+				os.Exit(2)
+			}
+			l.Replay = path
+			l.Scenario = c.Scenario
+			fails++
+		}
+		emit(l)
+		if fails >= *maxFail {
+			fmt.Printf("{\"stopped_at\":%d,\"why\":\"maxfail\"}\n", i+1)
+			return
+		}
+		if i%8 == 7 {
+			var ms runtime.MemStats
+			runtime.ReadMemStats(&ms)
+			if ms.Sys>>20 > *memMB {
+				fmt.Printf("{\"stopped_at\":%d,\"why\":\"mem\"}\n", i+1)
+				return
+			}
+		}
+	}
+}
+
+func writeReplay(path string, rf *ReplayFile) error {
+	b, err := json.Marshal(rf)
+	if err != nil {
+		return err
+	}
+	return os.WriteFile(path, b, 0644)
+}
+
+func readReplay(path string) *ReplayFile {
+	b, err := os.ReadFile(path)
+	if err != nil {
+		fmt.Fprintln(os.Stderr, "worker:", err)
+		os.Exit(2)
+	}
+	var rf ReplayFile
+	if err := json.Unmarshal(b, &rf); err != nil {
+		fmt.Fprintln(os.Stderr, "worker: bad replay file:", err)
+		os.Exit(2)
+	}
+	return &rf
+}
+
+func cmdReplay(args []string) {
+	fs := flag.NewFlagSet("replay", flag.ExitOnError)
+	file := fs.String("file", "", "")
+	verbose := fs.Bool("v", false, "")
+	fs.Parse(args)
+	rf := readReplay(*file)
+	p := getProp(rf.Property)
+	t0 := time.Now()
+	c, v := execute(p, rf.Tier, rf.FaultFree, gen.Replay(rf.GenTape), rf.WorldTapes)
+	l := lineOf(rf.RunIndex, rf.RunSeed, rf.FaultFree, c, v, time.Since(t0))
+	l.Scenario = c.Scenario
+	emit(l)
+	if *verbose {
+		fmt.Fprintf(os.Stderr, "class=%q\n%s\n", v.Class, v.Detail)
+	}
+}
+
+// ---- minimisation (delta debugging over the two tapes) ----
+
+func sameClass(a, b string) bool { return a == b }
+
+func cmdMinimise(args []string) {
+	fs := flag.NewFlagSet("minimise", flag.ExitOnError)
+	file := fs.String("file", "", "")
+	out := fs.String("out", "", "")
+	budget := fs.Int("budget", 60, "seconds")
+	fs.Parse(args)
+	rf := readReplay(*file)
+	p := getProp(rf.Property)
+	deadline := time.Now().Add(time.Duration(*budget) * time.Second)
+	class := rf.Class
+	tries, kept := 0, 0
+
+	cur := &ReplayFile{}
+	*cur = *rf
+	try := func(gt []uint32, wt [][]uint32) bool {
+		if time.Now().After(deadline) {
+			return false
+		}
+		tries++
+		c, v := execute(p, rf.Tier, rf.FaultFree, gen.Replay(gt), wt)
+		if !v.OK && sameClass(v.Class, class) {
+			kept++
+			cur.GenTape = append([]uint32(nil), c.G.Tape()...)
+			cur.WorldTapes = c.OutTapes
+			cur.Detail = v.Detail
+			cur.Shape = v.Shape
+			cur.Trace = c.Trace
+			cur.Scenario = c.Scenario
+			return true
+		}
+		return false
+	}
+	// confirm first
+	if !try(rf.GenTape, rf.WorldTapes) {
+		fmt.Printf("{\"minimise\":\"not-reproduced\",\"tries\":%d}\n", tries)
+		os.Exit(3)
+	}
+	// pass 1: shrink the generator tape (fewer/smaller workload choices); schedule tapes are dropped
+	// first (PRNG-free replay falls back to "stay on the current goroutine"), then restored if needed.
+	shrinkTape := func(get func() []uint32, attempt func([]uint32) bool) {
+		// delete chunks
+		for size := len(get()) / 2; size >= 1; size /= 2 {
+			for i := 0; i+size <= len(get()); {
+				t := get()
+				cand := append(append([]uint32(nil), t[:i]...), t[i+size:]...)
+				if attempt(cand) {
+					continue
 				}
-			}(i)
+				i += size
+				if time.Now().After(deadline) {
+					return
+				}
+			}
 		}
-		go func() { wg.Wait(); close(ch) }()
-		for v := range ch {
-			mu.Lock()
-			total += v
-			mu.Unlock()
+		// zero, then halve values
+		for i := 0; i < len(get()); i++ {
+			t := get()
+			if t[i] == 0 {
+				continue
+			}
+			cand := append([]uint32(nil), t...)
+			cand[i] = 0
+			if attempt(cand) {
+				continue
+			}
+			for v := t[i] / 2; v > 0; v /= 2 {
+				cand := append([]uint32(nil), get()...)
+				if i >= len(cand) {
+					break
+				}
+				cand[i] = v
+				if !attempt(cand) {
+					break
+				}
+			}
+			if time.Now().After(deadline) {
+				return
+			}
 		}
-		select {
-		case <-time.After(time.Second):
-			fmt.Println("timeout fired at", time.Now())
+	}
+	zeroChunks := func(get func() []uint32, attempt func([]uint32) bool) {
+		for size := len(get()); size >= 1; size /= 2 {
+			for i := 0; i < len(get()); i += size {
+				t := get()
+				end := i + size
+				if end > len(t) {
+					end = len(t)
+				}
+				allZero := true
+				for _, v := range t[i:end] {
+					if v != 0 {
+						allZero = false
+					}
+				}
+				if allZero {
+					continue
+				}
+				cand := append([]uint32(nil), t...)
+				for j := i; j < end; j++ {
+					cand[j] = 0
+				}
+				attempt(cand)
+				if time.Now().After(deadline) {
+					return
+				}
+			}
+			if size == 1 {
+				break
+			}
 		}
-		fmt.Println("total", total)
-	})
-	fmt.Printf("%+v\n", res.Status)
-	fmt.Println(res.Steps, res.Switches, res.VirtualNs, res.TraceHash, len(res.Tape))
+	}
+	for round := 0; round < 3 && time.Now().Before(deadline); round++ {
+		before := kept
+		shrinkTape(func() []uint32 { return cur.GenTape }, func(gt []uint32) bool { return try(gt, cur.WorldTapes) })
+		for wi := range cur.WorldTapes {
+			wi := wi
+			attempt := func(t []uint32) bool {
+				wt := make([][]uint32, len(cur.WorldTapes))
+				copy(wt, cur.WorldTapes)
+				wt[wi] = t
+				return try(cur.GenTape, wt)
+			}
+			// truncate from the end (choices after the failure do not matter)
+			for len(cur.WorldTapes) > wi && len(cur.WorldTapes[wi]) > 0 {
+				t := cur.WorldTapes[wi]
+				if !attempt(t[:len(t)/2]) {
+					break
+				}
+			}
+			if wi < len(cur.WorldTapes) {
+				zeroChunks(func() []uint32 {
+					if wi < len(cur.WorldTapes) {
+						return cur.WorldTapes[wi]
+					}
+					return nil
+				}, attempt)
+			}
+		}
+		if kept == before {
+			break
+		}
+	}
+	cur.Minimised = true
+	cur.Class = class
+	nz := 0
+	total := 0
+	for _, t := range cur.WorldTapes {
+		for _, v := range t {
+			total++
+			if v != 0 {
+				nz++
+			}
+		}
+	}
+	cur.Note = fmt.Sprintf("minimised: %d candidate executions, %d accepted; generator tape %d -> %d choices; schedule tapes: %d choices of which %d non-default",
+		tries, kept, len(rf.GenTape), len(cur.GenTape), total, nz)
+	dst := *out
+	if dst == "" {
+		dst = strings.TrimSuffix(*file, ".json") + ".min.json"
+	}
+	if err := writeReplay(dst, cur); err != nil {
+		fmt.Fprintln(os.Stderr, "worker:", err)
+		os.Exit(2)
+	}
+	fmt.Printf("{\"minimise\":\"ok\",\"tries\":%d,\"kept\":%d,\"out\":%q}\n", tries, kept, dst)
 }
